@@ -197,6 +197,22 @@ pub fn drive(a: &Args) -> i32 {
             evs.push(json!({"ev":"DhtMsg","built":built,"len":bytes.len(),"decodes":dec.is_some(),"is_put":is_put,"put_len":put_len,
                             "panic":panic,"ok":ok,"reply_len":reply_len,"stored_len":stored,"peak":peak}));
         }
+        // a hostile peer answers a lookup with a value of arbitrary size: nothing over the limit may be retained
+        for (i, vlen) in [0usize, 1, 511, 512, 513, 600, 4096, 60_000].iter().enumerate() {
+            let liar = net::hex_id(&mut rng);
+            let addr = net::addr_for(40 + i);
+            hub.register(&liar, &addr, Endpoint::Fake(Fake { lookup_reply: FakeReply::Value(vec![0x5a; *vlen]), ack_put: false }));
+            let _ = node.mgr.connect_to_peer(&addr).await;
+            net::settle().await;
+            let mut key = [0u8; 32];
+            key[0] = 200 + i as u8;
+            let m2 = node.mgr.clone();
+            let h = tokio::spawn(async move { m2.get(&key).await.map(|r| matches!(r, DhtNetworkResult::GetSuccess { .. })).unwrap_or(false) });
+            let r = h.await;
+            let held = node.mgr.get_local(&key).await.ok().flatten().map(|v| v.len() as i64).unwrap_or(-1);
+            evs.push(json!({"ev":"HostileGet","vlen":vlen,"panic":r.as_ref().is_err_and(|e| e.is_panic()),"found":r.unwrap_or(false),"held_len":held}));
+            hub.set_silent(&liar, true);
+        }
         hub.set_silent(&peer, true);
         let _ = node.mgr.stop().await;
         let _ = node.transport.stop().await;
